@@ -3,6 +3,7 @@ import Mqtt.Model.Broker
 import Mqtt.Spec.Broker
 import Mqtt.Driver.Util
 import Mqtt.Driver.Topics
+import Mqtt.Model.Framing
 
 namespace Mqtt.Driver.Broker
 open Mqtt.Driver Mqtt.Iface.Broker
@@ -120,19 +121,30 @@ def groupLine (items : List (Nat × String)) (extra : List String) : String :=
   let all := groups ++ extra
   if all.isEmpty then "-" else " ".intercalate all
 
-def showModel (outs : List Out) : String :=
-  let items := outs.filterMap (fun o => match o with
+/-- the items of a model output list, per addressee, and whether the in-process call failed -/
+def modelItems (outs : List Out) : List (Nat × String) × Bool :=
+  (outs.filterMap (fun o => match o with
     | .send c p => some (c, showPacket p)
     | .closed c => some (c, "CLOSED")
     | .call cb p => some (cb, showPub { p with pktid := 0 } false)   -- the identifier a callback sees depends on fan-out order
-    | .apiErr => none)
-  groupLine items (if outs.any (fun o => o == .apiErr) then ["apierr"] else [])
+    | .apiErr => none),
+   outs.any (fun o => o == .apiErr))
+
+def showModelItems (items : List (Nat × String)) (apierr : Bool) : String :=
+  groupLine items (if apierr then ["apierr"] else [])
+
+def showModel (outs : List Out) : String :=
+  let r := modelItems outs
+  showModelItems r.1 r.2
 
 open Mqtt.Spec.Broker in
-def showSpec (outs : List SOut) : String :=
-  if outs.any (fun o => match o with | .unspecified => true | _ => false) then "*" else
+def specUnspecified (outs : List SOut) : Bool :=
+  outs.any (fun o => match o with | .unspecified => true | _ => false)
+
+open Mqtt.Spec.Broker in
+def specItems (outs : List SOut) : List (Nat × String) × Bool :=
   let pubs (l : List Pub) := ",".intercalate (Topics.sortStrings (l.map (fun p => showPub p true)))
-  let items := outs.filterMap (fun o => match o with
+  (outs.filterMap (fun o => match o with
     | .send c p => some (c, showPacket p)
     | .sendOrClose c p => some (c, showPacket p ++ "|CLOSED")
     | .deliver o l => some (o, "DELIVER{" ++ pubs l ++ "}")
@@ -140,26 +152,166 @@ def showSpec (outs : List SOut) : String :=
     | .closed c => some (c, "CLOSED")
     | .refused c codes => some (c, "REFUSED{" ++ ",".intercalate (codes.map (fun x => match x with | some n => toString n | none => "-")) ++ "}")
     | .apiErr => none
-    | .unspecified => none)
-  -- no run-sorting on the specification side: DELIVER / RETAINED items are sets already
+    | .unspecified => none),
+   outs.any (fun o => match o with | .apiErr => true | _ => false))
+
+/-- no run-sorting on the specification side: DELIVER / RETAINED items are sets already -/
+def showSpecItems (items : List (Nat × String)) (apierr : Bool) : String :=
   let ids := sortNats ((items.map (·.1)).eraseDups)
   let groups := ids.map (fun i =>
-    (if i < cbBase then s!"c{i}" else s!"cb{i}") ++ "[" ++ ";".intercalate ((items.filter (fun p => p.1 == i)).map (·.2)) ++ "]")
-  let all := groups ++ (if outs.any (fun o => match o with | .apiErr => true | _ => false) then ["apierr"] else [])
+    (if i < Mqtt.Spec.Broker.cbBase then s!"c{i}" else s!"cb{i}") ++ "[" ++ ";".intercalate ((items.filter (fun p => p.1 == i)).map (·.2)) ++ "]")
+  let all := groups ++ (if apierr then ["apierr"] else [])
   if all.isEmpty then "-" else " ".intercalate all
+
+def showSpec (outs : List Mqtt.Spec.Broker.SOut) : String :=
+  if specUnspecified outs then "*" else
+  let r := specItems outs
+  showSpecItems r.1 r.2
 
 structure St where
   m : Mqtt.Model.Broker.B := {}
   s : Mqtt.Spec.Broker.S := {}
+  /-- bytes of an incomplete packet per connection (`raw` events); a connection with such bytes is *mid-packet* -/
+  pend : List (Nat × Bytes) := []
+  /-- items addressed to a mid-packet connection are withheld until it is at a packet boundary
+  again (the harness cannot put a PINGREQ barrier on it before): model stream / specification stream -/
+  heldM : List (Nat × String) := []
+  heldS : List (Nat × String) := []
+
+def St.pendOf (st : St) (c : Nat) : Bytes := (st.pend.lookup c).getD []
+def St.setPend (st : St) (c : Nat) (bs : Bytes) : St :=
+  { st with pend := (if bs.isEmpty then [] else [(c, bs)]) ++ st.pend.filter (fun p => p.1 != c) }
+def St.mid (st : St) (c : Nat) : Bool := !(st.pendOf c).isEmpty
+
+/-- On the line on which connection `own` is closed, what else it was sent on that line is not
+observed (the broker closes the socket before its sender goroutine has flushed), except the
+CONNACK that answers the first packet (written to the socket directly). -/
+def ownFilter (own : Option Nat) (keepConnack : Bool) (items : List (Nat × String)) : List (Nat × String) :=
+  match own with
+  | none => items
+  | some c =>
+    if !items.contains (c, "CLOSED") then items else
+    let mine := items.filter (fun p => p.1 == c)
+    let lead := match mine.head? with
+      | some p => if keepConnack && p.2.startsWith "CONNACK" then [p] else []
+      | none => []
+    items.filter (fun p => p.1 != c) ++ lead ++ [(c, "CLOSED")]
+
+/-- assemble one output line: withheld items first, `ownFilter`, then withhold again what is
+addressed to connections that are mid-packet.  `boundary`: the event's own connection completed a
+packet on this line — it was observed at that packet boundary, before the bytes of the next,
+incomplete packet were written. -/
+def emitItems (st : St) (held : List (Nat × String)) (own : Option Nat) (keepConnack boundary : Bool)
+    (items : List (Nat × String)) : List (Nat × String) × List (Nat × String) :=
+  let all := ownFilter own keepConnack (held ++ items)
+  let mid (c : Nat) : Bool := st.mid c && !(boundary && own == some c)
+  (all.filter (fun p => !mid p.1), all.filter (fun p => mid p.1))
+
+/-- `st` already carries the new model / specification states and pending bytes -/
+def emit (st : St) (own : Option Nat) (keepConnack : Bool) (mo : List Out) (so : List Mqtt.Spec.Broker.SOut)
+    (boundary : Bool := false) : St × String × String :=
+  let mi := modelItems mo
+  let (mshow, mheld) := emitItems st st.heldM own keepConnack boundary mi.1
+  let si := specItems so
+  let (sshow, sheld) := emitItems st st.heldS own keepConnack boundary si.1
+  let sline := if specUnspecified so then "*" else showSpecItems sshow si.2
+  ({ st with heldM := mheld, heldS := if specUnspecified so then [] else sheld }, showModelItems mshow mi.2, sline)
 
 /-- `firstp <c> connect … ; <packet…>`: the CONNECT and a further packet written in one go, before
 the CONNACK is read (MQTT 3.1.1 §3.1.4 allows it): two events, one output line -/
 def splitSemi (ws : List String) : List String × List String :=
   (ws.takeWhile (· != ";"), (ws.dropWhile (· != ";")).drop 1)
 
+/-! ### byte-level events (`rawfirst`, `raw`): framing and decoding by `Model/Framing` + `Model/Codec` -/
+
+def ringSize : Nat := Mqtt.Generated.defaultBufferSize
+
+/-- the harness's authenticator refuses the user name "deny" -/
+def rawAuth : Mqtt.Model.Framing.Auth := fun user _ => user != some [100, 101, 110, 121]
+
+def stepsModel (b : Mqtt.Model.Broker.B) (evs : List Ev) : Mqtt.Model.Broker.B × List Out :=
+  evs.foldl (fun acc e => let r := Mqtt.Model.Broker.step acc.1 e; (r.1, acc.2 ++ r.2)) (b, [])
+
+open Mqtt.Spec.Broker in
+/-- The reference broker on the events of a byte stream.  Events of a connection the
+specification no longer knows (bytes behind a DISCONNECT) are skipped; for packets a
+client has no business sending (acknowledgements of server-to-client requests, a second
+CONNECT) the properties fix nothing about that connection itself — item `?` — but nobody
+else may be affected. -/
+def stepsSpec (s : S) (evs : List Ev) : S × List SOut × List Nat :=
+  evs.foldl (fun (acc : S × List SOut × List Nat) e =>
+    match e with
+    | .packet c p =>
+      if (getConn acc.1 c).isNone then acc else
+      match p with
+      | .pingresp | .suback _ _ | .unsuback _ | .connack _ _ | .connectAgain => (acc.1, acc.2.1, acc.2.2 ++ [c])
+      | _ => let r := step acc.1 e; (r.1, acc.2.1 ++ r.2, acc.2.2)
+    | _ => let r := step acc.1 e; (r.1, acc.2.1 ++ r.2, acc.2.2)) (s, [], [])
+
+/-- run events on both sides and emit the line; `free`: connections whose own group the specification leaves open -/
+def runRaw (st : St) (c : Nat) (keepConnack : Bool) (evs : List Ev) (pendAfter : Bytes) : St × String × String :=
+  let (m, mo) := stepsModel st.m evs
+  let (s, so, free) := stepsSpec st.s evs
+  let st1 : St := { st with m := m, s := s }
+  let st2 := st1.setPend c (if m.alive c then pendAfter else [])
+  let (st3, ml, sl) := emit st2 (some c) keepConnack mo so (!evs.isEmpty)
+  -- a `?` item makes the whole group of that connection free (lib/vcheck/props_broker.py)
+  let sl := if free.isEmpty || sl == "*" then sl else
+    sl ++ " " ++ " ".intercalate (free.eraseDups.map (fun i => s!"c{i}[?]"))
+  (st3, ml, if sl.startsWith "- " then (sl.drop 2).toString else sl)
+
+/-- `race <a> <hex|close> <p> <hex>`: connection `a` sends its bytes (or its socket is closed) while
+connection `p` sends packets, nothing in between.  The model takes `a`'s events first; the line is
+the same for every interleaving as long as `a` ends up closed (what `a` received is then not
+compared) — the generators use it only that way: a close, or bytes that are fatal at a packet
+boundary; on a mid-packet connection the event is a no-op on both sides. -/
+def handleRace (st : St) (a : Nat) (xa : Option Bytes) (p : Nat) (bp : Bytes) : St × String × String :=
+  if !st.m.alive a || !st.m.alive p || a == p || st.mid p || st.mid a then (st, "-", "-") else
+  let (evsA, restA) := match xa with
+    | none => ([Ev.close a], [])
+    | some bs => let avail := st.pendOf a ++ bs; Mqtt.Model.Framing.postEvents ringSize a (avail.length + 1) avail
+  let (evsP, restP) := Mqtt.Model.Framing.postEvents ringSize p (bp.length + 1) bp
+  let evs := evsA ++ evsP
+  let (m, mo) := stepsModel st.m evs
+  let (s, so, free) := stepsSpec st.s evs
+  let st1 : St := { st with m := m, s := s }
+  let st2 := (st1.setPend a (if m.alive a then restA else [])).setPend p (if m.alive p then restP else [])
+  let (st3, ml, sl) := emit st2 (some a) false mo so (!evsA.isEmpty)
+  let sl := if free.isEmpty || sl == "*" then sl else
+    sl ++ " " ++ " ".intercalate (free.eraseDups.map (fun i => s!"c{i}[?]"))
+  (st3, ml, if sl.startsWith "- " then (sl.drop 2).toString else sl)
+
+def handleRaw (st : St) (c : Nat) (bs : Bytes) : St × String × String :=
+  if !st.m.alive c then (st, "-", "-") else
+  let avail := st.pendOf c ++ bs
+  let (evs, rest) := Mqtt.Model.Framing.postEvents ringSize c (avail.length + 1) avail
+  runRaw st c false evs rest
+
+def handleRawFirst (st : St) (c : Nat) (bs : Bytes) (closes : Bool) : St × String × String :=
+  -- an incomplete first packet ends with the peer's close or with the connect deadline: refused either way
+  match Mqtt.Model.Framing.firstEvent c rawAuth bs true with
+  | none => (st, "bad-op", "bad-op")
+  | some (e1, rest) =>
+    let accepted := (Mqtt.Model.Broker.step st.m e1).1.alive c
+    let (evs, rest') := if accepted then Mqtt.Model.Framing.postEvents ringSize c (rest.length + 1) rest else ([], [])
+    let evs := [e1] ++ evs ++ (if accepted && closes then [Ev.close c] else [])
+    runRaw st c true evs (if closes then [] else rest')
+
 def handle (st : St) (ws : List String) : St × String × String :=
   match ws with
   | ["reset"] => ({}, "reset", "reset")
+  | ["raw", c, hex] =>
+    match c.toNat?, unhex hex with
+    | some c, some bs => handleRaw st c bs
+    | _, _ => (st, "bad-op", "bad-op")
+  | ["race", a, xa, p, hp] =>
+    match a.toNat?, (if xa == "close" then some none else (unhex xa).map some), p.toNat?, unhex hp with
+    | some a, some xa, some p, some bp => handleRace st a xa p bp
+    | _, _, _, _ => (st, "bad-op", "bad-op")
+  | ["rawfirst", c, hex, k] =>
+    match c.toNat?, unhex hex, parseBool k with
+    | some c, some bs, some k => handleRawFirst st c bs k
+    | _, _, _ => (st, "bad-op", "bad-op")
   | "firstp" :: c :: rest =>
     let (a, b) := splitSemi rest
     match parseEv ("first" :: c :: a), parseEv ("pkt" :: c :: b) with
@@ -168,14 +320,23 @@ def handle (st : St) (ws : List String) : St × String × String :=
       let (m2, mo2) := Mqtt.Model.Broker.step m1 e2
       let (s1, so1) := Mqtt.Spec.Broker.step st.s e1
       let (s2, so2) := Mqtt.Spec.Broker.step s1 e2
-      (⟨m2, s2⟩, showModel (mo1 ++ mo2), showSpec (so1 ++ so2))
+      emit { st with m := m2, s := s2 } none false (mo1 ++ mo2) (so1 ++ so2)
     | _, _ => (st, "bad-op", "bad-op")
   | _ =>
     match parseEv ws with
     | none => (st, "bad-op", "bad-op")
     | some ev =>
+      -- packets are written as bytes: on a connection that is mid-packet they would become part of
+      -- the pending packet, which `raw` expresses; refused on both sides
+      let midConn : Option Nat := match ev with
+        | .packet c _ => if st.mid c then some c else none
+        | _ => none
+      if midConn.isSome then (st, "bad-op", "bad-op") else
       let (m, mo) := Mqtt.Model.Broker.step st.m ev
       let (s, so) := Mqtt.Spec.Broker.step st.s ev
-      (⟨m, s⟩, showModel mo, showSpec so)
+      let st1 : St := { st with m := m, s := s }
+      match ev with
+      | .close c => emit (st1.setPend c []) (some c) false mo so
+      | _ => emit st1 none false mo so
 
 end Mqtt.Driver.Broker
